@@ -66,7 +66,7 @@ type History struct {
 // ObserveAtEnd: finish every replayed history with an observation of the query paths
 var ObserveAtEnd = true
 
-var PoolNames = []string{"o1", "o2", "p1", "p2", "p3", "c1", "c2", "w1"}
+var PoolNames = []string{"o1", "o2", "p1", "p2", "p3", "pz", "c1", "c2", "w1"}
 
 func StartHistory(rec *Recorder, reset Ev) *Chain {
 	p := DefaultMParams()
